@@ -395,6 +395,7 @@ def main(argv=None):
     rows, samples, assumptions, bounded = [], [], set(getattr(mod, "ASSUMPTIONS", [])), []
     solver_s = 0.0
     backends = {}
+    by_label = {}
     for u in units:
         r = results[u.id]
         obls = r.get("obligations", [])
@@ -412,6 +413,10 @@ def main(argv=None):
         if u.kind == "prove":
             n_obl += len(obls)
             n_dis += dis
+            for o in obls:
+                lb = by_label.setdefault(o.get("label", u.label), dict(obligations=0, discharged=0))
+                lb["obligations"] += 1
+                lb["discharged"] += 1 if o["status"] == "discharged" else 0
             for o in obls:
                 solver_s += o.get("time", 0)
                 if o.get("backend"):
@@ -507,6 +512,9 @@ def main(argv=None):
             obligations=n_obl, discharged=n_dis,
             checker_cmd=f"/verif/check {prop} --tier {tier}",
             trusted_base=sorted(getattr(mod, "TRUSTED", [])),
+            by_label=by_label,
+            label_legend="P: all inputs of the stated precondition (unbounded); L: lemma with explicit induction; S: source scan; Pb: all VALUES symbolic but "
+                         "one structural dimension bounded as stated per unit - reported as bounded structure, not as unbounded proof; B units are listed under 'bounded' and never counted",
             functions=rows, backends=backends, solver_s=round(solver_s, 3),
             bounded=bounded, samples=samples or [dict(note="no obligations")],
             evaluations=sum(b["evaluations"] for b in bounded) + n_obl,
